@@ -644,6 +644,14 @@ def correspond(ctx):
         st.count("corpus")
         if not ok:
             violation(case, detail, f"corpus case {os.path.basename(path)}: {detail}")
+        elif case.get("kind") == "text" and case.get("model"):
+            # a text on which the model once disagreed with the implementation: compared with the model again
+            with fl.settings.context(decimals=int(case["decimals"])), np.errstate(all="ignore"):
+                try:
+                    real = ("ok", export(fl.FllImporter().from_string(case["text"])))
+                except Exception as ex:  # noqa: BLE001
+                    real = ("err", kind_of(ex))
+            ask(["fll-cycle", int(case["decimals"]), tol, C.hexs(case["text"])], ("cycle", dict(case, label=case.get("label", "corpus")), real))
     # ---- engines
     texts = []
     seen_classes = set()
